@@ -4,6 +4,7 @@ import (
 	"bytes"
 	"crypto/ed25519"
 	"fmt"
+	"strings"
 	"testing"
 
 	"github.com/aperturerobotics/bifrost/crypto"
@@ -34,6 +35,12 @@ func TestC02(t *testing.T) {
 	// separator, and strings that would be read as printf verbs / escapes if a
 	// context were ever used as a format or pattern
 	ctxs := []string{"", "ctx-a", "ctx-a ", "x - SIGN - 1", "tok%v", "tok%d", "q%.0[2]s v1", "100%", "a\\0b", "ctx\x00z"}
+	// long contexts (a context may include caller-chosen text such as a channel
+	// id): lengths around 128 and 256 bytes, and two that differ only after a
+	// common prefix of 280 bytes - a sign body assembled in a fixed-size buffer
+	// would drop the digest, the hash type or the tail of the context
+	longP := strings.Repeat("p", 280)
+	ctxs = append(ctxs, strings.Repeat("c", 110), strings.Repeat("c", 120), strings.Repeat("d", 240), strings.Repeat("d", 250), longP+"-a", longP+"-b")
 	hts := []hash.HashType{hash.HashType_HashType_SHA256, hash.HashType_HashType_SHA1, hash.HashType_HashType_BLAKE3}
 	datas := [][]byte{{}, {0x42}, bytes.Repeat([]byte("bifrost!"), 40)}
 	stdPub := func(i int) ed25519.PublicKey { return keys[i].Std.Public().(ed25519.PublicKey) }
